@@ -23,6 +23,7 @@ CONSTANTS
   BugZeroCostHeld = TRUE
   SplitOnlyAtEnqueue = FALSE
   DropOnClose = FALSE
+  WriteErrorEndsReader = FALSE
   ForwardInitWin = FALSE
   WithSettings = TRUE
 INVARIANTS NoEligibleQueued
